@@ -116,6 +116,12 @@ def correspondence(ctx: Ctx, built: bool, thorough: bool):
                                   f"{op.split()[0]} with a {what} body changed the engine (paused, handler, sending_off, discovery_off, writing_paused) from {prev} to {row[1:]}",
                                   {"ops": ops, "writeable": writeable, "discovery_disabled": disc, "trace": rows}, "operation-sequence")
                     break
+                if op.split()[0] in ("GetState", "Restore") and prev[0] == 1 and (row[1:] != prev or row[0] != 3):
+                    ctx.violation(f"engine-changed-by:{op.split()[0]}:while-paused",
+                                  f"{op.split()[0]} asked for while a client holds the engine paused must be refused (RuntimeError) and change nothing; outcome code {row[0]}, "
+                                  f"engine (paused, handler, sending_off, discovery_off, writing_paused) {prev} -> {row[1:]}",
+                                  {"ops": ops, "writeable": writeable, "discovery_disabled": disc, "trace": rows}, "operation-sequence")
+                    break
                 prev = row[1:]
             e0 = f"mkEng (Some 7) {str(not writeable).lower()} {str(disc).lower()} {str(not writeable).lower()} None"
             cases.append(f"trace ({e0}) [{'; '.join(ops)}]")
